@@ -85,18 +85,21 @@ ChgDef ==
   /\ UNCHANGED enc
 
 (* historical read: view at heads H must be the interpretation of the ancestors' ops *)
+(* historical reads after a save/load cycle are C11's ("the same state at every historical heads") *)
+HP == IF "afterload" \in DOMAIN E THEN "C11" ELSE "C07"
+
 ReadAt ==
   /\ IsEv("readat")
   /\ LET H == S(E.heads)
          A == Anc(deps, H)
          O == OpsOf(ops, A)
-     IN  /\ ViewChk("C07", "view-at-heads-equals-interpretation-of-ancestors", O, E.view)
-         /\ Chk("C07", "fork-at-succeeds", "err" \notin DOMAIN E.fork)
+     IN  /\ ViewChk(HP, "view-at-heads-equals-interpretation-of-ancestors", O, E.view)
+         /\ Chk(HP, "fork-at-succeeds", "err" \notin DOMAIN E.fork)
          /\ ("err" \notin DOMAIN E.fork) =>
-               /\ Chk("C07", "fork-at-heads-are-the-given-heads", S(E.fork.heads) = H)
-               /\ Chk("C07", "fork-at-holds-exactly-the-ancestors", S(E.fork.applied) = A)
-               /\ ViewChk("C07", "fork-at-document-equals-interpretation-of-ancestors", O, E.fork.view)
-               /\ Chk("C07", "read-at-equals-read-of-fork", E.fork.view = E.view)
+               /\ Chk(HP, "fork-at-heads-are-the-given-heads", S(E.fork.heads) = H)
+               /\ Chk(HP, "fork-at-holds-exactly-the-ancestors", S(E.fork.applied) = A)
+               /\ ViewChk(HP, "fork-at-document-equals-interpretation-of-ancestors", O, E.fork.view)
+               /\ Chk(HP, "read-at-equals-read-of-fork", E.fork.view = E.view)
   /\ UNCHANGED <<ops, deps, enc>>
 
 Other ==
